@@ -7,6 +7,9 @@ This module provides functions to save MCMC sample data to CSV files. Enable via
 use burn::prelude::*;
 use ndarray::{Array3, Axis};
 use std::error::Error;
+#[cfg(mini_mcmc_verif)]
+use mcmc_sim::fs::File;
+#[cfg(not(mini_mcmc_verif))]
 use std::fs::File;
 
 use csv::Writer;
@@ -115,6 +118,9 @@ where
     B: Backend,
 {
     use csv::Writer;
+    #[cfg(mini_mcmc_verif)]
+    use mcmc_sim::fs::File;
+    #[cfg(not(mini_mcmc_verif))]
     use std::fs::File;
     // Extract data as TensorData and convert to a flat Vec<T>
     let shape = tensor.dims(); // expected to be [num_chains, num_obs, num_dimensions]
